@@ -155,6 +155,7 @@ pub mod verif_hooks {
             CodeAddress::InstrEdge { instr_id } => (1, instr_id.data() as usize, 0),
             CodeAddress::OffsetInFunction { id, offset } => (2, id.index(), offset),
             CodeAddress::FunctionEdge { id } => (3, id.index(), 0),
+            CodeAddress::FunctionBodyStart { id } => (5, id.index(), 0),
             CodeAddress::Unknown => (4, 0, 0),
         }
     }
